@@ -91,6 +91,10 @@ pub enum Store {
     CapSlice(u8, u8),
     /// capped view over an ArrayVec with length
     CapArrayVec(u8, u8),
+    /// ArrayVec<[u8; 128]> with pre-existing length (the family of long writes)
+    ArrayVec128(u8),
+    /// capped view (cap) over an ArrayVec<[u8; 128]> with length
+    CapArrayVec128(u8, u8),
 }
 
 pub fn stores() -> Vec<Store> {
@@ -117,6 +121,61 @@ pub fn stores() -> Vec<Store> {
         }
     }
     v
+}
+
+/// The family of LONG writes: lengths on both sides of 64 and 128 bytes (block sizes a copy
+/// routine might special-case) on stores of 63..200 bytes.
+pub fn ops_large() -> Vec<Op> {
+    vec![
+        Op::Write(1),
+        Op::Write(63),
+        Op::Write(64),
+        Op::Write(65),
+        Op::Write(127),
+        Op::Extend(64),
+        Op::Read(64),
+        Op::Read(65),
+        Op::Nested(Inner::Write(64)),
+        Op::Nested(Inner::Read(64)),
+        Op::Nested(Inner::WriteTake(64)),
+        Op::ReadDirectFinal(64),
+        Op::Query,
+    ]
+}
+
+pub fn stores_large() -> Vec<Store> {
+    let mut v = Vec::new();
+    for c in [64u8, 65, 127, 128, 129, 200] {
+        for l in [0u8, 2] {
+            v.push(Store::Vec(c, l));
+        }
+    }
+    for cap in [63u8, 64, 65, 128] {
+        for l in [0u8, 2] {
+            v.push(Store::CapVec(cap, 200, l));
+        }
+    }
+    for l in [0u8, 1, 2, 63, 64] {
+        v.push(Store::ArrayVec128(l));
+    }
+    for cap in [64u8, 65, 100] {
+        for l in [0u8, 2] {
+            v.push(Store::CapArrayVec128(cap, l));
+        }
+    }
+    for n in [63u8, 64, 65, 127, 128, 129, 130, 200] {
+        v.push(Store::Slice(n));
+        v.push(Store::SliceRef(n));
+    }
+    for cap in [63u8, 64, 65, 127, 128, 129] {
+        v.push(Store::CapSlice(cap, 200));
+    }
+    v
+}
+
+/// (name, operations, stores, largest depth): the enumerations that make up the check.
+pub fn families() -> Vec<(&'static str, Vec<Op>, Vec<Store>, usize)> {
+    vec![("small", ops(), stores(), usize::MAX), ("long-writes", ops_large(), stores_large(), 3)]
 }
 
 /// Reference model: bytes written so far and the capacity of the view.
@@ -349,6 +408,24 @@ pub fn run_case(store: Store, seq: &[Op], take: bool) -> Result<&'static str, St
             check(v[..old.len()] == old[..] && v[old.len()..] == m.written[..], "ArrayVec: contents differ")?;
             Ok("arrayvec")
         }
+        Store::ArrayVec128(l) | Store::CapArrayVec128(_, l) => {
+            let mut v: ArrayVec<[u8; 128]> = ArrayVec::new();
+            for i in 0..l {
+                v.push(0xa0 | (i & 0xf));
+            }
+            let old: Vec<u8> = v.to_vec();
+            let spare = 128 - l as usize;
+            if let Store::CapArrayVec128(cap, _) = store {
+                m.cap = (cap as usize).min(spare);
+                with_buffer((&mut v).cap_at(m.cap), |b| drive(b, seq, &mut m, take))?;
+            } else {
+                m.cap = spare;
+                with_buffer(&mut v, |b| drive(b, seq, &mut m, take))?;
+            }
+            check(v.len() == old.len() + m.written.len(), "ArrayVec: length did not grow by exactly the initialized amount")?;
+            check(v[..old.len()] == old[..] && v[old.len()..] == m.written[..], "ArrayVec: contents differ")?;
+            Ok("arrayvec")
+        }
         Store::Slice(n) | Store::CapSlice(_, n) => {
             let n = n as usize;
             let mut arena = vec![CANARY; n + 8];
@@ -396,20 +473,21 @@ pub struct Summary {
 
 /// Enumerate all sequences of length <= depth for all stores (sequentially).
 pub fn enumerate(depth: usize, mut visit: impl FnMut(Store, &[Op], bool, Result<&'static str, String>)) {
-    let ops = ops();
-    let n = ops.len();
-    for store in stores() {
-        for d in 0..=depth {
-            for idx in 0..n.pow(d as u32) {
-                let mut i = idx;
-                let mut seq = Vec::with_capacity(d);
-                for _ in 0..d {
-                    seq.push(ops[i % n]);
-                    i /= n;
-                }
-                for take in [false, true] {
-                    let r = run_case(store, &seq, take);
-                    visit(store, &seq, take, r);
+    for (_, ops, stores, max_depth) in families() {
+        let n = ops.len();
+        for store in stores {
+            for d in 0..=depth.min(max_depth) {
+                for idx in 0..n.pow(d as u32) {
+                    let mut i = idx;
+                    let mut seq = Vec::with_capacity(d);
+                    for _ in 0..d {
+                        seq.push(ops[i % n]);
+                        i /= n;
+                    }
+                    for take in [false, true] {
+                        let r = run_case(store, &seq, take);
+                        visit(store, &seq, take, r);
+                    }
                 }
             }
         }
